@@ -257,9 +257,17 @@ def gen_tables() -> str:
             MISSING.append("cli/" + fn)
             continue
         mods.append(stem)
-        cmds = const_strs(module_assign(m, "COMMANDS")) if module_assign(m, "COMMANDS") is not None else None
+        cnode = module_assign(m, "COMMANDS")
+        cmds = const_strs(cnode) if cnode is not None else []
         if cmds is None:
-            cmds = []
+            # computed table (e.g. python.py builds python3.8 … python3.19): evaluate the single
+            # expression with a minimal set of builtins
+            try:
+                val = eval(compile(ast.Expression(cnode), fn, "eval"), {"__builtins__": {"range": range, "str": str, "list": list, "tuple": tuple, "set": set, "frozenset": frozenset, "sorted": sorted}})
+                cmds = [x for x in val if isinstance(x, str)]
+            except Exception:  # noqa: BLE001
+                MISSING.append("cli/" + fn + ":COMMANDS")
+                cmds = []
         for c in cmds:
             handlers.setdefault(c, stem)
         src = ast.dump(m)
